@@ -458,6 +458,7 @@ def main(tier):
     ck.cov.update({
         'rule': 'complete product V x V (V = +-(2^k+d), k<=%d, d in -2..2, plus digit patterns over 1..10 16-bit places: %d values) for '
                 '+ - * divide mod gcd compare; V x shift counts; small bases x exponents; base x exponent x every modulus for powermod; '
+                'the foam_i.c runtime wrappers (Plus Minus Times TimesPlus Divide EQ NE LT LE over V x V; Length IsSingle FrPlacev ToDFlo ToString per value; ShiftUp ShiftDn Bit for counts 0..130 and on to 400); ' 
                 'decimal and radix 2..36 strings of every value; all word tuples from a 20-value boundary set for the double-word primitives. '
                 'distinct = distinct result values (16-bit hash classes per mode)' % (K, len(V)),
         'values': len(V), 'per_mode_evaluations': per,
